@@ -276,6 +276,45 @@ pub fn run(ctx: &mut Ctx) {
         }
     });
 
+    // extension type x data-length classes (powers of two and their neighbours up to the u16 maximum): every type that
+    // is not one of the 26 known ones comes back with its own code point and its data verbatim at every length, through the
+    // generic and the ClientHello / ServerHello dispatchers (type and length are independent fields)
+    ctx.floor("swept.extension.type_x_length_classes", 60_000 * 32);
+    ctx.sweep("extension.type_x_length_classes", 256, |ctx, idx| {
+        const LENS: [usize; 32] = [1, 2, 4, 8, 16, 32, 64, 128, 255, 256, 257, 511, 512, 513, 1023, 1024, 1025, 2047, 2048, 4095, 4096, 4097, 8191, 8192, 8193, 16383, 16384, 16385, 32767, 32768, 32769, 65535];
+        let mut buf = vec![0u8; 4 + 65535];
+        for lo in 0..256u32 {
+            let t = ((idx as u32) << 8 | lo) as u16;
+            if crate::refenc::KNOWN_EXT_TYPES.contains(&t) {
+                continue;
+            }
+            buf[..2].copy_from_slice(&t.to_be_bytes());
+            for l in LENS {
+                buf[2..4].copy_from_slice(&(l as u16).to_be_bytes());
+                let input = &buf[..4 + l];
+                let mut good = true;
+                for (k, r) in [parse_tls_extension(input), parse_tls_client_hello_extension(input), parse_tls_server_hello_extension(input)].iter().enumerate() {
+                    let ok = match r {
+                        Ok((rem, TlsExtension::Unknown(ty, d))) => rem.is_empty() && ty.0 == t && d.len() == l && !is_grease(t),
+                        Ok((rem, TlsExtension::Grease(ty, d))) => rem.is_empty() && *ty == t && d.len() == l && is_grease(t),
+                        _ => false,
+                    };
+                    if !ok && good {
+                        good = false;
+                        let dn = ["generic", "client", "server"][k];
+                        ctx.violation(
+                            format!("c11:extension.type_x_length_classes:{}", dn),
+                            json!({"extension_type": t, "data_len": l, "dispatcher": dn, "result": format!("{:.120?}", r.as_ref().map(|x| TlsExtensionType::from(&x.1)))}),
+                        );
+                    }
+                }
+                ctx.add("swept.extension.type_x_length_classes", 1);
+            }
+            ctx.evals(96);
+        }
+        ctx.shape(&("type_x_length", idx / 8));
+    });
+
     // ------------------------------------------------ 8-bit fields
     sweep8!(ctx, "compression.client_hello", |v, rng| {
         let mut ch = gen::client_hello(&mut rng, gen::TINY);
